@@ -497,7 +497,7 @@ def parse_config(path):
         _input["paths"] = None
 
     # Output fields are optional, default: most data output, least logging output.
-    _output = toml.get("output", {})
+    _output = toml.setdefault("output", {})
     if "directory" in _output:
         _output["directory"] = resolve_path(_output["directory"], path.parent)
     else:
@@ -689,6 +689,10 @@ def _parse_config_input_postpaths(input, path):
 
 
 def _parse_output_options(output_opts, level, phase_assemblage):
+    if level not in output_opts:
+        # Default: output for all mineral phases that are being simulated.
+        output_opts[level] = list(phase_assemblage)
+        return
     try:
         output_opts[level] = [
             getattr(_core.MineralPhase, ϕ) for ϕ in output_opts[level]
